@@ -224,3 +224,50 @@ for _g, (_rel, _cls, _cfg, _pnames, _sub) in _GROUPS.items():
             expect = len(_pnames) + (1 if _sub else 0)
             vc.ensure("nothing_else_is_folded", len(folded_params) == expect)
         obligation(f"C02.fold_layers_group.{_g}.n{_n}", "C02", [f"{TC}:_fold_layers_group"])(_h)
+
+
+# ------------------------------------------------------------------------------------------------ a folded layer is rebuilt from `config`
+from contracts.C01_kernels import semiring as _semiring, param as _param, scope_idx as _scope_idx
+from engine.values import is_z3 as _isz3, Obj as _Obj
+LO = "cirkit/backend/torch/layers/optimized.py"
+
+
+def _recipes(vc):
+    F = vc.int("F", lo=1)
+    K, Ko, C, H = vc.int("K", lo=1), vc.int("Ko", lo=1), vc.int("C", lo=2), vc.int("H", lo=2)
+    sr = _semiring(vc)
+    P = lambda n, shape: _param(vc, n, F, shape)[0]
+    yield "TorchEmbeddingLayer", LP, lambda: vc.new(f"{LP}:TorchEmbeddingLayer", _scope_idx(vc, F), K, num_states=C, weight=P("weight", (K, C)), semiring=sr)
+    yield "TorchCategoricalLayer", LP, lambda: vc.new(f"{LP}:TorchCategoricalLayer", _scope_idx(vc, F), K, num_categories=C, logits=P("logits", (K, C)), semiring=sr)
+    yield "TorchBinomialLayer", LP, lambda: vc.new(f"{LP}:TorchBinomialLayer", _scope_idx(vc, F), K, total_count=C, probs=P("probs", (K,)), semiring=sr)
+    yield "TorchGaussianLayer", LP, lambda: vc.new(f"{LP}:TorchGaussianLayer", _scope_idx(vc, F), K, mean=P("mean", (K,)), stddev=P("stddev", (K,)), semiring=sr)
+    yield "TorchPolynomialLayer", LP, lambda: vc.new(f"{LP}:TorchPolynomialLayer", _scope_idx(vc, F), K, degree=C, coeff=P("coeff", (K, C + 1)), semiring=sr)
+    for ls in (False, True):
+        yield f"TorchConstantValueLayer.log_space_{ls}", LP, (lambda ls=ls: vc.new(f"{LP}:TorchConstantValueLayer", K, log_space=ls, value=P("value", (K,)), semiring=sr))
+    yield "TorchSumLayer", LIN, lambda: vc.new(f"{LIN}:TorchSumLayer", K, Ko, arity=H, weight=P("weight", (Ko, K * H)), semiring=sr, num_folds=F)
+    yield "TorchHadamardLayer", LIN, lambda: vc.new(f"{LIN}:TorchHadamardLayer", K, arity=H, semiring=sr, num_folds=F)
+    yield "TorchKroneckerLayer", LIN, lambda: vc.new(f"{LIN}:TorchKroneckerLayer", K, arity=2, semiring=sr, num_folds=F)
+    yield "TorchCPTLayer", LO, lambda: vc.new(f"{LO}:TorchCPTLayer", K, Ko, H, weight=P("weight", (Ko, K)), semiring=sr, num_folds=F)
+    yield "TorchTuckerLayer", LO, lambda: vc.new(f"{LO}:TorchTuckerLayer", K, Ko, 2, weight=P("weight", (Ko, K * K)), semiring=sr, num_folds=F)
+
+
+_NAMES = ["TorchEmbeddingLayer", "TorchCategoricalLayer", "TorchBinomialLayer", "TorchGaussianLayer", "TorchPolynomialLayer", "TorchConstantValueLayer.log_space_False",
+          "TorchConstantValueLayer.log_space_True", "TorchSumLayer", "TorchHadamardLayer", "TorchKroneckerLayer", "TorchCPTLayer", "TorchTuckerLayer"]
+
+for _name in _NAMES:
+    def _h(vc, _name=_name):
+        """_fold_layers_group on a group of ONE layer (cls(**config, **params, semiring=..., scope_idx | num_folds)): the rebuilt layer must
+        hold every scalar hyper-parameter of the original (a hyper-parameter missing from `config` silently falls back to the constructor default)"""
+        (rel, mk), = [(r, m) for n, r, m in _recipes(vc) if n == _name]
+        layer = mk()
+        compiler = Opaque("compiler", {"semiring": layer.fields.get("semiring")})
+        vc.I.summaries[f"{TC}:_fold_parameters"] = lambda I, a, k: list(a[1])[0]          # a group of one: the parameter itself
+        rebuilt = vc.call(f"{TC}:_fold_layers_group", [layer], compiler=compiler)
+        ok = isinstance(rebuilt, _Obj) and rebuilt.cls is layer.cls
+        vc.ensure("rebuilt_layer_of_the_same_class", ok)
+        if not ok:
+            return
+        for fname, fval in layer.fields.items():
+            if isinstance(fval, (bool, int)) or _isz3(fval):
+                vc.ensure(f"same_attribute.{fname}", fname in rebuilt.fields and vc.eq(rebuilt.fields[fname], fval))
+    obligation(f"C02.rebuild_from_config.layer.{_name}", "C02", [f"{TC}:_fold_layers_group"])(_h)
